@@ -72,3 +72,53 @@ def render(m, meta, trials=400):
             problems.append({"size(cols,lines)": (W, H), "mode": mode, "alpha": alpha, "terminal_bg": termbg, "on_kitty": kitty, "source_size": size, "wrong_cells": errs[:2]})
             break
     return {"reproduced": bool(problems), "input": "seeded random images (first sized from the model)", "observed": problems[:2]}
+
+
+def source_untouched(m, meta):
+    """a PIL image handed in by the caller is the source of EVERY render: after any sequence of renders under different transparency
+    settings, a render equals the render of an untouched copy of the original image under the same setting, and the image's info
+    (where a paletted image keeps its transparent entry) is what it was"""
+    import copy
+    import tests
+    from term_image.image import BlockImage
+    from PIL import Image
+    rng = random.Random(12)
+    tests.set_fg_bg_colors((255, 255, 255), (10, 20, 30))
+    if tests.is_on_kitty:
+        tests.toggle_is_on_kitty()
+    problems = []
+
+    def sources():
+        p = Image.new("P", (4, 4))
+        p.putpalette([255, 0, 0, 0, 255, 0, 0, 0, 255] + [9] * (253 * 3))
+        p.putdata([0, 1, 2, 1] * 4)
+        p.info["transparency"] = 1                       # palette entry 1 is fully transparent
+        yield "P, transparency = palette index", p
+        q = p.copy()
+        q.info["transparency"] = bytes([255, 0, 128] + [255] * 253)        # tRNS table
+        yield "P, transparency = alpha table", q
+        rgba = Image.new("RGBA", (4, 4))
+        rgba.putdata([(200, 100, 50, rng.choice([0, 100, 255])) for _ in range(16)])
+        rgba.info["comment"] = "kept"
+        yield "RGBA", rgba
+        la = Image.new("LA", (4, 4))
+        la.putdata([(rng.randint(0, 255), rng.choice([0, 200])) for _ in range(16)])
+        yield "LA", la
+    for label, im in sources():
+        pristine = im.copy()
+        info0 = copy.deepcopy(im.info)
+        image = BlockImage(im, width=4, height=2)
+        for seq in ((None, 0.5), (None, "#"), (None, 0.0, "#112233", 0.5), (0.5, None, 0.5), ("#", None, None, 0.3)):
+            for alpha in seq:
+                got = image._renderer(image._render_image, alpha)
+                ref = BlockImage(pristine.copy(), width=4, height=2)
+                exp = ref._renderer(ref._render_image, alpha)
+                if got != exp or im.info != info0:
+                    problems.append({"source": label, "renders so far (alpha settings)": [repr(a_) for a_ in seq[:seq.index(alpha) + 1]] if alpha in seq else repr(seq),
+                                     "render equals the render of an untouched copy": got == exp, "info before": repr(info0)[:80], "info now": repr(im.info)[:80]})
+                    break
+            if problems:
+                break
+        if problems:
+            break
+    return {"reproduced": bool(problems), "input": "sequences of renders of one caller-supplied PIL image under changing transparency settings", "observed": problems[:2]}
